@@ -32,6 +32,7 @@ def cases(tier, seed):
     for bad in ("not-rvdata", "covariance"):
         yield f"source/{bad}", {"kind": "source", "bad": bad}
     yield "history/container-mutated-between-calls", {"kind": "history"}
+    yield "history/offsets-list-extended-after-construction", {"kind": "alias"}
     for what in ("ok", "pool-no-map", "pool-no-close", "rng-int", "rng-legacy", "prior-str"):
         yield f"joker/{what}", {"kind": "joker", "what": what}
 
@@ -115,6 +116,19 @@ def check(inp):
                     bad("JokerPrior.__init__", "parameter-order-nonlinear-linear-offsets", got=prior.par_names)
         elif accepted:
             bad("JokerPrior.__init__", f"defective-prior-must-raise[{inp['defect']}]", par=inp["par"])
+        return fails
+    if inp["kind"] == "alias":
+        # what was validated is what the prior keeps: extending the caller's own list of offset priors later must not add an (unvalidated) offset
+        import pymc as pm
+        import thejoker.units as xu
+        with pm.Model() as model:
+            dv1 = xu.with_unit(pm.Normal("dv0_1", 0.0, 5.0), u.km / u.s)
+            offsets = [dv1]
+            prior = JokerPrior.default(P_min=2 * u.day, P_max=100 * u.day, sigma_K0=25 * u.km / u.s, sigma_v=50 * u.km / u.s, v0_offsets=offsets, model=model)
+            before = (prior.n_offsets, list(prior.par_names))
+            offsets.append(xu.with_unit(pm.Uniform("dv0_2", -5, 5), u.km / u.s))
+        if (prior.n_offsets, list(prior.par_names)) != before or len(prior.v0_offsets) != 1:
+            bad("JokerPrior.__init__", "accepted-prior-unchanged-when-the-callers-list-is-extended[call-history]", n_offsets=prior.n_offsets, before=before[0])
         return fails
     if inp["kind"] == "history":
         # one sampler, one list object: accepted with two sources and one offset prior; after a third source is appended to the SAME list the
